@@ -11,7 +11,37 @@ import (
 //go:norace
 func yieldH(s *Sim, t *Task, r *Req) Status {
 	s.Ev(t, "y", r.I0, 0)
+	s.minor = true
+	s.Tape.noteSite(t.ID, r.I0)
+	if d := s.cfg.StallDen; d > 0 && s.Tape != nil && s.Tape.Choose(d) == 0 {
+		// a stalled thread: the clock moves on while the task sits between two
+		// statements (pre-emption, a page fault, a slow machine)
+		ns := [...]int64{1, 1_000, 1_000_000, 10_000_000}[s.Tape.Choose(4)]
+		s.Now += ns
+		s.Stalled += ns
+		s.Ev(t, "stall", ns, 0)
+	}
 	return Done
+}
+
+//go:norace
+func syncPointH(s *Sim, t *Task, r *Req) Status {
+	s.Ev(t, "sp", r.I0, 0)
+	return Done
+}
+
+// SyncPoint is a scheduling point at a synchronisation operation that the
+// simulator does not model itself (an atomic, a sync.Map call): a major point
+// for the strategies that only switch at synchronisation.
+//
+//go:norace
+func SyncPoint(tag int) {
+	if cur == nil {
+		return
+	}
+	var r Req
+	r.I0 = int64(tag)
+	Call(syncPointH, &r)
 }
 
 // Yield is a scheduling point inserted by the rewriter before statements.
@@ -88,8 +118,21 @@ func GoNamed(name string, fn func()) {
 //go:norace
 func stampH(s *Sim, t *Task, r *Req) Status {
 	r.R0 = s.Seq
+	r.R1 = s.Now
+	r.I2 = s.Stalled
 	s.Ev(t, "stamp", r.I0, 0)
 	return Done
+}
+
+// StampClock is Stamp together with the simulated time and the stall time
+// injected so far, all three read at the same instant.
+//
+//go:norace
+func StampClock(tag int) (seq, now, stalled int64) {
+	var r Req
+	r.I0 = int64(tag)
+	Call(stampH, &r)
+	return r.R0, r.R1, r.I2
 }
 
 // Stamp returns the global event sequence number; histories use it for
@@ -213,6 +256,16 @@ func NowNs() int64 {
 	var r Req
 	Call(nowH, &r)
 	return r.R0
+}
+
+// StalledNs is the simulated time injected by stalls so far (Config.StallDen).
+//
+//go:norace
+func StalledNs() int64 {
+	if cur == nil {
+		return 0
+	}
+	return cur.Stalled
 }
 
 // ---- Probes ------------------------------------------------------------------
